@@ -46,6 +46,9 @@ impl Generator {
             self.min_opcodes
         };
 
+        #[cfg(feature = "verif-hooks")]
+        super::verif::trace_target(self, target_opcodes);
+
         // generation phase - allow stack to grow and build complex structures
         for _ in 0..target_opcodes {
             let valid_ops = self.get_valid_opcodes();
@@ -56,6 +59,9 @@ impl Generator {
             let chosen = self.weighted_choice(valid_ops, source);
             self.emit_and_process(chosen, source)?;
         }
+
+        #[cfg(feature = "verif-hooks")]
+        super::verif::trace_body_end(self);
 
         // cleanup phase - reduce stack to exactly 1 item for STOP
         self.cleanup_for_stop();
@@ -78,6 +84,9 @@ impl Generator {
             self.output[pos] = OpcodeKind::Frame.as_u8();
             self.output[pos + 1..pos + 9].copy_from_slice(&(frame_size as u64).to_le_bytes());
         }
+
+        #[cfg(feature = "verif-hooks")]
+        super::verif::trace_final(self);
 
         Ok(self.output.clone())
     }
